@@ -93,12 +93,21 @@ func genLifeCase(r *simrt.Rand, tier string) *LifeCase {
 			cn.Dial = ""
 			cn.TimeoutMs = 0
 		}
+		udp := c.Eng.Network != "unix" && r.Bool(0.12)
+		if udp {
+			// a UDP client connection (net.DialUDP handed to the engine): a connection the engine
+			// manages like the others, ended by what the application can do to it
+			cn = LifeConn{Kind: "udpdial"}
+		}
 		for j := 0; j < r.Intn(3); j++ {
 			cn.Traffic = append(cn.Traffic, r.Pick(1, 10, 1000))
 		}
 		ne := r.Pick(0, 1, 1, 2, 3, 4)
 		for j := 0; j < ne; j++ {
 			e := Ender{Kind: enderKinds[r.Intn(len(enderKinds))], DelayUs: r.Pick(0, 0, 1, 10, 100, 1000)}
+			if udp {
+				e.Kind = r.PickS("close", "closeerr", "closeerr", "rdeadline")
+			}
 			if e.Kind == "close" || e.Kind == "closeerr" {
 				e.After = r.Bool(0.5)
 			}
@@ -420,6 +429,44 @@ func runLife(t *testing.T, ci interface{}, trace bool) *common.Outcome {
 				if _, err := w.G.AddConn(nc); err != nil {
 					st.causes = append(st.causes, &lifeCause{kind: "addfail", invoke: 0})
 				}
+			case "udpdial":
+				remote := w.K.NewPeer(kernel.UDP)
+				raddr := &kernel.Addr{Net: "udp", IP: [4]byte{127, 0, 0, 1}, Port: 7500 + i}
+				w.K.BindDgram(remote, raddr)
+				nc, err := nbio.Dial("udp", fmt.Sprintf("127.0.0.1:%d", 7500+i))
+				if err != nil {
+					o.Probe("nbio_dial_failed_by_injected_fault")
+					continue
+				}
+				la := nc.LocalAddr().String()
+				cs := w.Expect(la, nil)
+				attach(cs)
+				st.established = true
+				traffic := plan.Traffic
+				cs.OnOpenHook = func(cs *ConnState) {
+					// datagrams from the remote arrive before the enders act: a client that has
+					// received something is the interesting one
+					got := 0
+					cs.OnDataHook = func(cs *ConnState, data []byte) { got++ }
+					if ka := parseUDPAddr(la); ka != nil {
+						for range traffic {
+							// (one byte each: the engine's read buffer may be tiny, and truncation
+							// of datagrams is not this check's subject)
+							b := Payload(cs.ID, 'U', len(cs.Sent), 1)
+							cs.Sent = append(cs.Sent, b...)
+							w.K.PeerSendTo(remote, b, ka)
+						}
+					}
+					pending++
+					simrt.GoNamed("udp-enders", func() {
+						defer func() { pending-- }()
+						simrt.WaitStuck("udp-data", 5*time.Millisecond, func() bool { return got > 0 || len(traffic) == 0 })
+						startEnders(cs)
+					})
+				}
+				if _, err := w.G.AddConn(nc); err != nil {
+					st.causes = append(st.causes, &lifeCause{kind: "addfail", invoke: 0})
+				}
 			case "dial":
 				addr := fmt.Sprintf("127.0.0.1:%d", 7200+i)
 				var peerLn *kernel.Sock
@@ -643,3 +690,13 @@ func checkFirstCause(w *World, cs *ConnState, st *lifeState, got error) {
 }
 
 var _ = net.ErrClosed
+
+
+// parseUDPAddr turns "127.0.0.1:port" into a kernel address.
+func parseUDPAddr(s string) *kernel.Addr {
+	var a, b, c, d, port int
+	if n, _ := fmt.Sscanf(s, "%d.%d.%d.%d:%d", &a, &b, &c, &d, &port); n != 5 {
+		return nil
+	}
+	return &kernel.Addr{Net: "udp", IP: [4]byte{byte(a), byte(b), byte(c), byte(d)}, Port: port}
+}
